@@ -47,7 +47,13 @@ def kernel_sweep(ck, tier):
         fl.build(btor)
         fr.build(btor)
         cw = (max(wl, wr) + ctx) if ctx else -1
-        node = e.build(btor, cw)
+        try:
+            node = e.build(btor, cw)
+        except Exception as ex:
+            ck.oracle_fail("operator-build-exception:" + type(ex).__name__,
+                           dict(zip(("op", "wl", "wr", "signed_l", "signed_r", "ctx_extra"), (op, wl, wr, sl, sr, ctx))),
+                           "%s: %s" % (type(ex).__name__, str(ex)[:200]), "a bit-vector term for the operator")
+            continue
         sx = S.sexp(node.tree).replace("?0", "x").replace("?1", "y")
         for x in range(1 << wl):
             for y in range(1 << wr):
